@@ -390,6 +390,35 @@ class Histories(Contract):
                 pass
             ok = ok and infer_file_format(os.path.join(d, "folder"), needs_to_exist=False, allow_folder=True) == "yaml"
             res.append({"name": "infer_file_format_is_the_extension", "ok": ok, "detail": "", "function": "io_plugin_utils.infer_file_format"})
+            # truth table from the documentation: "File extension without the leading dot" (yml -> yaml) whenever the path has
+            # one - whether it names a file, a folder or nothing yet; no extension: "yaml" for folders when allowed, ValueError
+            # otherwise; ValueError when a file is required and missing
+            bad = []
+            for kind in ("missing", "file", "directory"):
+                for name, ext in (("plain", None), ("a.XyZ", "XyZ"), ("b.yml", "yaml"), ("c.d.XyZ", "XyZ"), ("e.CSV", "CSV"), ("run1.store", "store")):
+                    for needs in (True, False):
+                        for folder in (True, False):
+                            q = os.path.join(d, f"tt_{kind}_{needs}_{folder}", name)
+                            os.makedirs(os.path.dirname(q), exist_ok=True)
+                            if kind == "file":
+                                open(q, "w").close()
+                            elif kind == "directory":
+                                os.makedirs(q, exist_ok=True)
+                            if needs and not folder and kind != "file":
+                                want = ValueError
+                            elif ext is not None:
+                                want = ext
+                            else:
+                                want = "yaml" if folder else ValueError
+                            try:
+                                got = infer_file_format(q, needs_to_exist=needs, allow_folder=folder)
+                            except ValueError:
+                                got = ValueError
+                            except Exception as e:
+                                got = repr(e)
+                            if got != want:
+                                bad.append((kind, name, needs, folder, str(got), str(want)))
+            res.append({"name": "infer_file_format_truth_table_file_folder_missing_x_extension_x_flags", "ok": not bad, "detail": f"{bad[:3]}", "witness": {"mismatches (kind, name, needs_to_exist, allow_folder, got, want)": bad[:5]} if bad else None, "function": "io_plugin_utils.infer_file_format"})
 
             class Rec:
                 def __init__(self, name):
@@ -432,6 +461,27 @@ class Histories(Contract):
                                 continue
                             want, other = (given, inferred) if explicit else (inferred, given)
                             res.append({"name": f"dispatch_to_resolved_plugin[{fname},{'given' if explicit else 'inferred'}]", "ok": want.calls == [fname] and other.calls == [], "detail": f"calls {want.calls} / {other.calls}", "function": f"{mod.__name__}:{fname}"})
+                        finally:
+                            reg.clear()
+                            reg.update(saved)
+                    if fname in ("load_result", "save_result"):
+                        # an existing result folder whose name has an extension: the inferred format is that extension
+                        inferred, other = Rec("inferred"), Rec("yaml")
+                        saved = dict(reg)
+                        reg["store"], reg["yaml"] = inferred, other
+                        try:
+                            path = os.path.join(d, f"run_{fname}.store")
+                            os.makedirs(path, exist_ok=True)
+                            import types
+
+                            args = (path,) if fname.startswith("load_") else (types.SimpleNamespace(source_path=None, attrs={}), path)
+                            try:
+                                fn(*args, **({} if fname.startswith("load_") else {"allow_overwrite": True}))
+                                ok = inferred.calls == [fname] and other.calls == []
+                                detail = f"calls {inferred.calls} / {other.calls}"
+                            except Exception as e:
+                                ok, detail = False, f"{type(e).__name__}: {e}"
+                            res.append({"name": f"dispatch_to_resolved_plugin[{fname},inferred,existing_folder_with_extension]", "ok": ok, "detail": detail, "witness": {"path": path, "detail": detail} if not ok else None, "function": f"{mod.__name__}:{fname}"})
                         finally:
                             reg.clear()
                             reg.update(saved)
